@@ -215,6 +215,11 @@ class JavaRenderer:
             idx = len(self.events)
             self.events.append(None)      # EnterExpression of the `::` expression fires before its children
             sl, sc = e.tok(x[1][1], glue=not first)
+            if self.rng and self.rng.random() < 0.2:
+                # a reference continued on the next line (`.map(Helper  // note` / `::convert)`): the name's line is not the receiver's
+                e.raw(" // the shared one" if self.rng.random() < 0.5 else "")
+                e.nl()
+                e.lines[-1] = "    " * (e.indent + 2)
             e.tok("::", glue=True)
             ml, mc = e.tok(x[2], glue=True)
             # the listener positions the reference at the method's name
